@@ -180,7 +180,7 @@ static void exec_op(Task* t, OpRec& rec, bool preempt) {
         size_t n = (size_t)(op.b % 4097); if (!n) n = 1;
         u8* key = (u8*)malloc(n + KEY_GUARD); memset(key, 0x77, n + KEY_GUARD);
         rec.bufs.push_back({key, n, BUF_KEY});
-        E.watch_p = key; E.watch_n = n; E.watch_hits = 0;
+        E.watch_p = key; E.watch_n = n; E.watch_hits = 0; E.watch_armed = false;
         enter([&] { polyseed_keygen(seed, (polyseed_coin)(op.a & 2047), n, key); });
         E.watch_p = nullptr;
         rec.ret = E.watch_hits;
@@ -602,18 +602,8 @@ static bool low_entropy(const u8* p, size_t n) {
     for (size_t i = 0; i < n; ++i) if (!seen[p[i]]) { seen[p[i]] = true; ++d; }
     return d < 5;
 }
-// scans the dead part of the task's stack for the needles; returns a description or ""
-static std::string scan_stack(Task* t, const std::vector<Needle>& needles, u64* scanned) {
-    u8* hi = (u8*)t->entry_sp;
-    u8* lo = t->stack_lo;
-    if (!hi || hi <= lo) return "";
-    // find the extent the call touched: first address (from the bottom) that no longer holds the pattern
-    u8* p = lo;
-    while (p < hi && *p == STACK_PATTERN) ++p;
-    // keep alignment slack
-    if (p > lo + 64) p -= 64;
-    *scanned = hi - p;
-    std::string found;
+// searches [p, hi) for the needles; returns a description or ""
+static std::string scan_region(const u8* p, const u8* hi, const std::vector<Needle>& needles, const char* where) {
     for (auto& nd : needles) {
         size_t win; size_t step = 1;
         bool idx = false;
@@ -631,16 +621,37 @@ static std::string scan_stack(Task* t, const std::vector<Needle>& needles, u64* 
                 for (size_t i = 0; i < k; ++i) { vals[i] = w[i * step] | w[i * step + 1] << 8; if (vals[i] < 32) okv = false; for (size_t j = 0; j < i; ++j) if (vals[j] == vals[i]) okv = false; }
                 if (!okv) continue;
             } else if (low_entropy(w, win)) continue;
-            void* m = memmem(p, hi - p, w, win);
-            if (m) {
-                found = strf("%s: %zu bytes at offset %zu of the value (%s) found %ld bytes below the library's entry frame", nd.what, win, o, hexs(w, win).c_str(), (long)(hi - (u8*)m));
-                goto done;
-            }
+            const void* m = memmem(p, hi - p, w, win);
+            if (m) return strf("%s: %zu bytes at offset %zu of the value (%s) found %s, %ld bytes below its upper end", nd.what, win, o, hexs(w, win).c_str(), where, (long)(hi - (const u8*)m));
         }
     }
-done:
+    return "";
+}
+// scans the dead part of the task's stack for the needles; returns a description or ""
+static std::string scan_stack(Task* t, const std::vector<Needle>& needles, u64* scanned) {
+    u8* hi = (u8*)t->entry_sp;
+    u8* lo = t->stack_lo;
+    if (!hi || hi <= lo) return "";
+    // find the extent the call touched: first address (from the bottom) that no longer holds the pattern
+    u8* p = lo;
+    while (p < hi && *p == STACK_PATTERN) ++p;
+    if (p > lo + 64) p -= 64;
+    *scanned = hi - p;
+    std::string found = scan_region(p, hi, needles, "on the dead stack below the library's entry frame");
     memset(p, STACK_PATTERN, hi - p);
     return found;
+}
+
+// W3: the library's own writable static data (its .data/.bss sections are renamed at build time so that the linker
+// provides their bounds). A static scratch buffer is a temporary too.
+extern "C" { extern char __start_polydata[] __attribute__((weak)); extern char __stop_polydata[] __attribute__((weak));
+             extern char __start_polybss[] __attribute__((weak)); extern char __stop_polybss[] __attribute__((weak)); }
+static std::string scan_region(const u8* p, const u8* hi, const std::vector<Needle>& needles, const char* where);
+static std::string scan_statics(const std::vector<Needle>& needles, u64* scanned) {
+    std::string f;
+    if (__start_polydata && __stop_polydata > __start_polydata) { *scanned += __stop_polydata - __start_polydata; f = scan_region((const u8*)__start_polydata, (const u8*)__stop_polydata, needles, "in the library's static data"); }
+    if (f.empty() && __start_polybss && __stop_polybss > __start_polybss) { *scanned += __stop_polybss - __start_polybss; f = scan_region((const u8*)__start_polybss, (const u8*)__stop_polybss, needles, "in the library's static (zero-initialised) data"); }
+    return f;
 }
 
 // ------------------------------------------------------------------------------------------------ runs
@@ -698,9 +709,10 @@ static RunResult run_ops(const Plan& p, const RunOpts& o) {
             u64 scanned = 0;
             std::string f = scan_stack(t, ck.needles, &scanned);
             r.st.add("w2_scans"); r.st.add("w2_bytes_scanned", scanned);
+            if (f.empty()) { u64 sb = 0; f = scan_statics(ck.needles, &sb); r.st.add("w3_static_bytes_scanned", sb); }
             r.st.add(strf("w2_exit_%s_%s", OP_NAMES[rec.op.kind], rec.status >= 0 ? status_name(rec.status) : "void"));
             if (!f.empty() && owns(p.prop, A_W2, false)) {
-                r.v.found = true; r.v.prop = p.prop; r.v.oracle = "W2"; r.v.cls = "stack-residue"; r.v.op = (int)i;
+                r.v.found = true; r.v.prop = p.prop; r.v.oracle = "W2"; r.v.cls = f.find("static") != std::string::npos ? "static-residue" : "stack-residue"; r.v.op = (int)i;
                 r.v.msg = strf("after %s returned %s: ", OP_NAMES[rec.op.kind], rec.status >= 0 ? status_name(rec.status) : "") + f;
                 break;
             }
